@@ -22,6 +22,8 @@ EXPLANATION = (
     "the first frame's. PAIR: every channel_read_map of the filter's reader is "
     "followed by channel_read_unmap on every path. Numerical exactness of the "
     "mean, and the filter/sink race at end of stream, are not decided.")
+EXPLANATION += (' R-KERNEL: every per-pixel loop is 0..npx-1 (linear domain loop hooks; index or pointer-walk form) with a single element update and the element type of its sample type. R-WINDOW additions: window state empty at start, exact window test, count only after accumulate, float accumulator zeroed over its payload, commit only with an own mapping. R-DRAIN: a pass follows every read of the stop flag. R-CONSUME: the packet is released only after the walk is exhausted.')
+
 
 
 def as_update(lv, op, rhs):
